@@ -216,6 +216,8 @@ def run(item):
         if not uvals or len(uvals[0]) < 2:
             continue
         mat = dict(exprs)[name]
+        if ('u', 0) not in leaves(mat[0][0]):
+            continue        # (random expressions need not contain the control)
         lv0 = {w: ex[0][i] for k, w, i in ents if k in ('leaf', 'valueleaf')}
 
         def leaf_shift(op, args):
@@ -224,6 +226,9 @@ def run(item):
                 return v[0]
             return v[1] if op == 'u' else v[0]
         wrong = ev(mat[0][0], leaf_shift, inst.fdom)
+        right = ev(mat[0][0], lambda op, args: (lv0[(op,) + tuple(args)][0]), inst.fdom)
+        if close(wrong, right):
+            continue        # the shift does not change the reference value here (e.g. a factor t = 0 at the first node): uninformative
         if not close(wrong, ex[0][e_idx][0]):
             twins_ok += 1
         else:
